@@ -6,6 +6,7 @@ import (
 	"fmt"
 	"strings"
 	"sync/atomic"
+	"time"
 
 	"github.com/enbility/ship-go/ws"
 	"github.com/gorilla/websocket"
@@ -160,9 +161,19 @@ func setupC12(x *Ctx) {
 	nWriters := 1 + x.Choose("writers", 4)
 	perWriter := 1 + x.Choose("per-writer", 6)
 	closing := c12Closings[x.Choose("closing", len(c12Closings))]
+	// further closing events that follow the first one (a stalled sending direction, then a
+	// local close, then the peer going away ...), each issued by its own goroutine
+	var more []string
+	var moreGaps []time.Duration
+	if x.Feat(FeatMoreInputs) {
+		for i, n := 0, x.Biased("more-closings", 3, 0.5); i < n; i++ {
+			more = append(more, c12Closings[x.Choose("closing", len(c12Closings))])
+			moreGaps = append(moreGaps, []time.Duration{0, 10 * time.Millisecond, time.Second, 5 * time.Second}[x.Choose("closing-gap", 4)])
+		}
+	}
 	total := nWriters * perWriter
 	trigger := x.Choose("trigger", total+1) // closing event becomes enabled after this many accepted writes
-	x.SigAdd("closing="+closing, fmt.Sprintf("w=%d", nWriters))
+	x.SigAdd("closing="+closing+"+"+strings.Join(more, "+"), fmt.Sprintf("w=%d", nWriters))
 	x.SetSample(map[string]any{"uut_client": uutClient, "writers": nWriters, "per_writer": perWriter, "closing": closing, "trigger_after_accepted": trigger})
 
 	trig := make(chan struct{})
@@ -231,26 +242,41 @@ func setupC12(x *Ctx) {
 		simrt.Recv("ready", rig.ready)
 		simrt.Recv("peerReady", rig.peerReady)
 		simrt.Recv("trig", trig)
+		doClosing := func(closing string) {
+			switch closing {
+			case "local-close":
+				rig.wc.CloseDataConnection(4001, "")
+			case "local-close-reason":
+				rig.wc.CloseDataConnection(4001, "bye")
+			case "peer-close-frame":
+				rig.pm.Lock()
+				_ = rig.peer.WriteControl(websocket.CloseMessage, websocket.FormatCloseMessage(websocket.CloseNormalClosure, "bye"), timeNowPlus(5*sec))
+				rig.pm.Unlock()
+			case "peer-eof":
+				_ = rig.pc.Close()
+			case "write-fail":
+				rig.uc.FailNextWrite()
+			case "cut":
+				rig.uc.Cut()
+			case "stall":
+				// the peer application stops reading and the buffers are nearly full
+				rig.paused.Store(true)
+				rig.uc.SetSendCapacity(48)
+			}
+		}
 		x.Ev("closing", closing, "", int(accepted.Load()))
-		switch closing {
-		case "local-close":
-			rig.wc.CloseDataConnection(4001, "")
-		case "local-close-reason":
-			rig.wc.CloseDataConnection(4001, "bye")
-		case "peer-close-frame":
-			rig.pm.Lock()
-			_ = rig.peer.WriteControl(websocket.CloseMessage, websocket.FormatCloseMessage(websocket.CloseNormalClosure, "bye"), timeNowPlus(5*sec))
-			rig.pm.Unlock()
-		case "peer-eof":
-			_ = rig.pc.Close()
-		case "write-fail":
-			rig.uc.FailNextWrite()
-		case "cut":
-			rig.uc.Cut()
-		case "stall":
-			// the peer application stops reading and the buffers are nearly full
-			rig.paused.Store(true)
-			rig.uc.SetSendCapacity(48)
+		if len(more) == 0 {
+			doClosing(closing)
+		} else {
+			// a closing call may block (close message behind a stalled write): its own task
+			x.Go("X:close0", func() { doClosing(closing) })
+			for i, c := range more {
+				simrt.Sleep(moreGaps[i])
+				x.Ev("closing", c, "", int(accepted.Load()))
+				c := c
+				x.Go(fmt.Sprintf("X:close%d", i+1), func() { doClosing(c) })
+			}
+			simrt.Sleep(time.Millisecond)
 		}
 		x.Ev("closing-done", closing, "", 0)
 		close(closerDone)
